@@ -8,6 +8,7 @@ import (
 	"io"
 	"math/rand"
 	"net/http/httptest"
+	"path"
 	"sort"
 	"strings"
 
@@ -46,6 +47,7 @@ type c19Reg struct {
 }
 
 type c19In struct {
+	BasePath  string     `json:"base_path,omitempty"` // basePath of the description, as written
 	GConsumes []Bs       `json:"consumes,omitempty"`
 	GProduces []Bs       `json:"produces,omitempty"`
 	GSecurity [][]string `json:"security,omitempty"`
@@ -64,7 +66,8 @@ type c19Fail struct {
 type c19Served struct {
 	Op      int    `json:"op"`
 	CT      Bs     `json:"ct,omitempty"`
-	Outcome int    `json:"outcome"` // 0 handler ran, 1 500 no consumer registered, 2 panic can't find a producer, 3 other
+	Outcome int    `json:"outcome"` // 0 handler ran, 1 500 no consumer registered, 2 panic can't find a producer, 3 other, 4 not routed (404/405)
+	Target  string `json:"target,omitempty"`
 	Detail  string `json:"detail,omitempty"`
 }
 
@@ -78,7 +81,13 @@ type c19Obs struct {
 	Err        *c19Fail    `json:"err,omitempty"`
 	OtherErr   string      `json:"other_err,omitempty"`
 	Default    Bs          `json:"api_default"`
+	Routed     []c19Routed `json:"routed,omitempty"`
 	Served     []c19Served `json:"served,omitempty"`
+}
+
+type c19Routed struct {
+	Op    int  `json:"op"`
+	Found bool `json:"found"`
 }
 
 type c19 struct{}
@@ -89,9 +98,10 @@ func (c19) ID() string        { return "C19" }
 func (c19) CoqModule() string { return "Check_C19" }
 func (c19) Rule() string {
 	return "generated descriptions (0-2 global consumes/produces, 1-4 operations over GET/POST/PUT/DELETE x 4 path templates with 0-2 own consumes/produces, " +
+		"base path absent or one of 8 spellings (root, trailing slash, dots, dashes, nested); templates of 1-3 segments with dots, dashes, underscores, tildes, at most one placeholder, or built around the base path (repeated as leading/trailing segments, substring of a segment); " +
 		"0-3 security definitions basic/apiKey, global and per-operation requirements incl. empty, anonymous, AND/OR alternatives, undefined or unused schemes; media types lower-case mostly, " +
-		"rarely with upper-case letters or parameters) x registration sets: exact, each single omission, each single addition, case variants of media types/methods/paths, JSON defaults kept or dropped, random subsets; " +
-		"every operation of each validated API is then sent a well-formed request (body with an admitted content type for POST/PUT, credentials for every scheme). " +
+		"rarely with upper-case letters or parameters) x registration sets: exact, each single omission, each single addition, case variants of media types/methods/paths, JSON defaults kept or dropped, an operation registered under its full route, random subsets; " +
+		"every declared operation of each validated API is looked up in the real router under base path + template, and (simple descriptions) sent a well-formed request (body with an admitted content type for POST/PUT, credentials for every scheme). " +
 		"Non-trivial: at least two categories are non-empty, or validation fails, or an operation is exercised."
 }
 
@@ -127,6 +137,9 @@ func c19Doc(in c19In) string {
 		paths[o.Path][strings.ToLower(o.Method)] = op
 	}
 	doc := map[string]any{"swagger": "2.0", "info": map[string]any{"title": "t", "version": "1"}, "paths": paths}
+	if in.BasePath != "" {
+		doc["basePath"] = in.BasePath
+	}
 	if len(in.GConsumes) > 0 {
 		doc["consumes"] = bsList(in.GConsumes)
 	}
@@ -149,6 +162,12 @@ func c19Doc(in c19In) string {
 	}
 	b, _ := json.Marshal(doc)
 	return string(b)
+}
+
+// the request target under which the description places an operation: base path joined with the template,
+// the placeholder filled in
+func c19Target(in c19In, o c19Op) string {
+	return strings.ReplaceAll(path.Join(in.BasePath, o.Path), "{id}", "1")
 }
 
 func c19Sec(alts [][]string) []any {
@@ -196,7 +215,7 @@ func (c19) Run(inAny any) any {
 		obs.AnOps = c19Sorted(an.OperationMethodPaths())
 
 		api := untyped.NewAPI(doc)
-		ran := -1
+		ran, ranKey := -1, ""
 		for _, r := range in.Regs {
 			switch r.Kind {
 			case "consumer":
@@ -204,8 +223,10 @@ func (c19) Run(inAny any) any {
 			case "producer":
 				api.RegisterProducer(string(r.A), c19Producer{})
 			case "operation":
+				key := strings.ToUpper(string(r.A)) + " " + string(r.B)
 				api.RegisterOperation(string(r.A), string(r.B), runtime.OperationHandlerFunc(func(interface{}) (interface{}, error) {
 					ran++
+					ranKey = key
 					return "v", nil
 				}))
 			case "auth":
@@ -235,7 +256,16 @@ func (c19) Run(inAny any) any {
 			}
 			return
 		}
-		// exercise every operation of the validated API (the serving clause speaks about descriptions whose
+		// every declared operation of a validated API must have a route (any description), ...
+		ctx := middleware.NewContext(doc, api, nil)
+		h := ctx.APIHandler(nil)
+		for i, o := range in.Ops {
+			req := httptest.NewRequest(o.Method, c19Target(in, o), nil)
+			m, ok := ctx.LookupRoute(req)
+			// the route of this very operation, not a placeholder route of another one that happens to fit
+			obs.Routed = append(obs.Routed, c19Routed{Op: i, Found: ok && m != nil && m.PathPattern == path.Join(in.BasePath, o.Path)})
+		}
+		// ... and is then sent a well-formed request (the serving clause speaks about descriptions whose
 		// media types are lower-case, parameter-free and wildcard-free only)
 		for _, l := range c19AllMedia(in) {
 			for _, mt := range l {
@@ -245,10 +275,8 @@ func (c19) Run(inAny any) any {
 				}
 			}
 		}
-		ctx := middleware.NewContext(doc, api, nil)
-		h := ctx.APIHandler(nil)
 		for i, o := range in.Ops {
-			sv := c19Served{Op: i}
+			sv := c19Served{Op: i, Target: c19Target(in, o)}
 			var body io.Reader
 			if o.Method == "POST" || o.Method == "PUT" {
 				cons := o.Consumes
@@ -264,7 +292,7 @@ func (c19) Run(inAny any) any {
 					body = strings.NewReader("{}")
 				}
 			}
-			req := httptest.NewRequest(o.Method, strings.ReplaceAll(o.Path, "{id}", "1"), body)
+			req := httptest.NewRequest(o.Method, sv.Target, body)
 			if sv.CT != "" {
 				req.Header.Set("Content-Type", string(sv.CT))
 			}
@@ -284,8 +312,13 @@ func (c19) Run(inAny any) any {
 				sv.Outcome, sv.Detail = 3, "panic: "+msg
 			case rec.Code == 500 && strings.Contains(rec.Body.String(), "no consumer registered"):
 				sv.Outcome = 1
-			case ran == before+1:
+			case ran == before+1 && ranKey == o.Method+" "+o.Path:
 				sv.Outcome = 0
+			case ran == before+1:
+				sv.Outcome, sv.Detail = 3, "the handler of another operation ran: "+ranKey
+			case ran == before && (rec.Code == 404 || rec.Code == 405):
+				// the request never reached an operation: the router has no route for a declared operation
+				sv.Outcome, sv.Detail = 4, fmt.Sprintf("status %d %s", rec.Code, strings.TrimSpace(rec.Body.String()))
 			default:
 				sv.Outcome, sv.Detail = 3, fmt.Sprintf("status %d %s", rec.Code, strings.TrimSpace(rec.Body.String()))
 			}
@@ -327,7 +360,7 @@ func (c19) Coq(inAny any, obsAny any) string {
 		return fmt.Sprintf("mkop %s %s %s %s %s", coqBytes(o.Method), coqBytes(o.Path), coqBytesList(bsList(o.Consumes)), coqBytesList(bsList(o.Produces)), sec)
 	})
 	defs := coqList(in.Defs, func(d c19Def) string { return coqBytes(d.Name) })
-	desc := fmt.Sprintf("(mkdesc %s %s %s %s %s)", coqBytesList(bsList(in.GConsumes)), coqBytesList(bsList(in.GProduces)), c19Alts(in.GSecurity), defs, ops)
+	desc := fmt.Sprintf("(mkdesc %s %s %s %s %s %s)", coqBytes(in.BasePath), coqBytesList(bsList(in.GConsumes)), coqBytesList(bsList(in.GProduces)), c19Alts(in.GSecurity), defs, ops)
 	errT := "None"
 	if obs.Err != nil {
 		sec, ok := c19Sections[obs.Err.Section]
@@ -342,8 +375,9 @@ func (c19) Coq(inAny any, obsAny any) string {
 	served := coqList(obs.Served, func(s c19Served) string {
 		return fmt.Sprintf("(%d, %s, %d)", s.Op, coqBytes(string(s.CT)), s.Outcome)
 	})
-	return fmt.Sprintf("CValidate %s %s %s %s %s %s %s %s", regs, desc, coqBytesList(bsList(obs.AnConsumes)), coqBytesList(bsList(obs.AnProduces)),
-		coqBytesList(bsList(obs.AnSchemes)), coqBytesList(bsList(obs.AnOps)), errT, served)
+	routed := coqList(obs.Routed, func(s c19Routed) string { return fmt.Sprintf("(%d, %s)", s.Op, coqBool(s.Found)) })
+	return fmt.Sprintf("CValidate %s %s %s %s %s %s %s %s %s", regs, desc, coqBytesList(bsList(obs.AnConsumes)), coqBytesList(bsList(obs.AnProduces)),
+		coqBytesList(bsList(obs.AnSchemes)), coqBytesList(bsList(obs.AnOps)), errT, routed, served)
 }
 
 func (c19) Classify(inAny any, obsAny any) []string {
@@ -379,6 +413,34 @@ func (c19) Category(inAny any, obsAny any) (string, bool) {
 			}
 		}
 		res += fmt.Sprintf("/served-%d-worst-%d", len(obs.Served), worst)
+		unrouted, dots, inbase := 0, 0, 0
+		for _, rt := range obs.Routed {
+			if !rt.Found {
+				unrouted++
+			}
+		}
+		b := strings.Trim(in.BasePath, "/")
+		for _, o := range in.Ops {
+			if strings.Contains(o.Path, ".") {
+				dots = 1
+			}
+			if b != "" && strings.Contains(o.Path, b) {
+				inbase = 1
+			}
+		}
+		bc := "none"
+		switch {
+		case in.BasePath == "":
+		case in.BasePath == "/":
+			bc = "root"
+		case strings.HasSuffix(in.BasePath, "/"):
+			bc = "trailing-slash"
+		case strings.Contains(in.BasePath, "."):
+			bc = "dotted"
+		default:
+			bc = "plain"
+		}
+		res += fmt.Sprintf("/base-%s/dots-%d/base-in-template-%d/unrouted-%d", bc, dots, inbase, unrouted)
 	}
 	if obs.Panicked {
 		res = "panic"
@@ -391,6 +453,57 @@ func (c19) Category(inAny any, obsAny any) (string, bool) {
 var c19Media = []string{"application/json", "text/plain", "application/xml", "text/csv", "application/octet-stream"}
 var c19Odd = []string{"Text/Plain", "text/plain; charset=utf-8", "application/JSON", "text/*"}
 var c19Paths = []string{"/a", "/b/{id}", "/c/d", "/e"}
+
+// base paths as a description may write them: absent, the root, with and without a trailing slash, with dots,
+// dashes and underscores, nested
+var c19Bases = []string{"", "/", "/api", "/api/", "/a.b", "/v1.0", "/api/v2", "/x-y_z/"}
+
+// literal segments of operation paths: plain letters, dots (extension, version, leading, several), dashes,
+// underscores, tildes, and the words the base paths are made of
+var c19Segs = []string{"a", "b", "c", "d", "e", "items", "items.json", "v1.0", "x.y.z", ".well-known", "a-b", "c_d", "~u", "t~", "api", "a.b", "v2", "x-y_z", "apiary", "a.bc"}
+
+// c19Template draws the path template of an operation: one of the four plain ones, or 1-3 segments of which at most one
+// is the placeholder, or a template built around the base path (the base path repeated as leading segments, as
+// trailing segments, or as a substring of a segment)
+func c19Template(r *rand.Rand, base string) string {
+	seg := func() string { return c19Segs[r.Intn(len(c19Segs))] }
+	switch v := r.Intn(10); {
+	case v < 3:
+		return c19Paths[r.Intn(len(c19Paths))]
+	case v < 8:
+		n := 1 + r.Intn(3)
+		ph := -1
+		if r.Intn(3) == 0 {
+			ph = r.Intn(n)
+		}
+		t := ""
+		for k := 0; k < n; k++ {
+			if k == ph {
+				t += "/{id}"
+			} else {
+				t += "/" + seg()
+			}
+		}
+		return t
+	default:
+		b := strings.Trim(base, "/")
+		if b == "" {
+			b = []string{"api", "a.b", "v1.0"}[r.Intn(3)]
+		}
+		switch r.Intn(5) {
+		case 0:
+			return "/" + b
+		case 1:
+			return "/" + b + "/" + seg()
+		case 2:
+			return "/" + seg() + "/" + b
+		case 3:
+			return "/" + seg() + b + "/{id}"
+		default:
+			return "/" + b + "/{id}/" + b
+		}
+	}
+}
 var c19Meths = []string{"GET", "POST", "PUT", "DELETE"}
 var c19Schemes = []string{"basic", "key", "other"}
 
@@ -447,6 +560,9 @@ func c19Set(xs ...[]Bs) []string {
 
 func (c19) Gen(r *rand.Rand, tier string, i int) any {
 	var in c19In
+	if r.Intn(5) >= 2 { // two in five descriptions have no base path
+		in.BasePath = c19Bases[r.Intn(len(c19Bases))]
+	}
 	in.GConsumes = c19MediaList(r, 2)
 	in.GProduces = c19MediaList(r, 2)
 	nd := r.Intn(4)
@@ -466,7 +582,7 @@ func (c19) Gen(r *rand.Rand, tier string, i int) any {
 	nops := 1 + r.Intn(4)
 	seen := map[string]bool{}
 	for j := 0; j < nops; j++ {
-		o := c19Op{Method: c19Meths[r.Intn(4)], Path: c19Paths[r.Intn(4)]}
+		o := c19Op{Method: c19Meths[r.Intn(4)], Path: c19Template(r, in.BasePath)}
 		if seen[o.Method+o.Path] {
 			continue
 		}
@@ -534,14 +650,14 @@ func (c19) Gen(r *rand.Rand, tier string, i int) any {
 		regs = append(regs, c19Reg{Kind: "auth", A: Bs(s)})
 	}
 	in.Variant = "exact"
-	switch v := r.Intn(20); {
-	case v < 5: // exact
-	case v < 9: // single omission
+	switch v := r.Intn(24); {
+	case v < 8: // exact
+	case v < 12: // single omission
 		in.Variant = "omit"
 		k := r.Intn(len(regs))
 		in.Variant += "-" + regs[k].Kind
 		regs = append(append([]c19Reg{}, regs[:k]...), regs[k+1:]...)
-	case v < 13: // single addition
+	case v < 16: // single addition
 		in.Variant = "add"
 		switch r.Intn(4) {
 		case 0:
@@ -549,11 +665,11 @@ func (c19) Gen(r *rand.Rand, tier string, i int) any {
 		case 1:
 			regs = append(regs, c19Reg{Kind: "producer", A: Bs(c19Media[r.Intn(len(c19Media))])})
 		case 2:
-			regs = append(regs, c19Reg{Kind: "operation", A: Bs(c19Meths[r.Intn(4)]), B: Bs(c19Paths[r.Intn(4)])})
+			regs = append(regs, c19Reg{Kind: "operation", A: Bs(c19Meths[r.Intn(4)]), B: Bs(c19Template(r, in.BasePath))})
 		default:
 			regs = append(regs, c19Reg{Kind: "auth", A: Bs([]string{"basic", "key", "other", "extra"}[r.Intn(4)])})
 		}
-	case v < 16: // case variants
+	case v < 19: // case variants
 		in.Variant = "case"
 		k := r.Intn(len(regs))
 		switch regs[k].Kind {
@@ -568,9 +684,17 @@ func (c19) Gen(r *rand.Rand, tier string, i int) any {
 		case "auth":
 			regs[k].A = Bs(strings.ToUpper(string(regs[k].A)))
 		}
-	case v < 18: // JSON defaults kept
+	case v < 21: // JSON defaults kept
 		in.Variant = "keepjson"
 		regs = regs[1:]
+	case v < 22: // one operation registered under its full route (base path included) instead of its template
+		in.Variant = "fullpath"
+		for k := range regs {
+			if regs[k].Kind == "operation" {
+				regs[k].B = Bs(path.Join(in.BasePath, string(regs[k].B)))
+				break
+			}
+		}
 	default: // random subset + duplicates
 		in.Variant = "random"
 		var out []c19Reg
